@@ -1,6 +1,7 @@
 """driver-sim: a whole session of the real hephaestus.py (main -> run / run_parallel)
 inside one process, with simulated compiler peer, worker pool, clock and temp dirs."""
 import contextlib
+import copy
 import glob
 import io
 import os
@@ -46,12 +47,15 @@ class AsyncResult:
         self.exc = None
 
     def run(self):
+        w = self.pool.enter_worker()
         try:
             self.val = self.fn(*self.args)
         except SimAbort:
             raise
         except Exception as e:   # noqa  (a real Pool ships the exception to get())
             self.exc = e
+        finally:
+            self.pool.leave_worker(w)
         self.done = True
         if self.cb is not None and self.exc is None:
             self.pool.pending_cb.append(self)
@@ -75,6 +79,47 @@ class SimPool:
         self.tasks = []
         self.pending_cb = []
         self.closed = False
+        # Process separation: a real worker is forked when the pool is created and from then
+        # on owns PRIVATE copies of the module state (identifier pool, STOP_COND, STATS);
+        # nothing it writes there reaches the parent or another worker, and nothing the
+        # parent writes later (e.g. _run's reset_word_pool()) reaches it.  Each simulated
+        # worker keeps such an image; it is swapped in around every task it executes.
+        self.wsched = _pyrandom.Random(h64(session.run_seed, 'worker'))
+        self.images = [self._image() for _ in range(max(1, n))]
+        self.tasks_per_worker = [0] * max(1, n)
+
+    @staticmethod
+    def _image():
+        from src import utils
+        Hm = hmod()
+        return {'WORDS': set(utils.random.WORDS), 'STOP_COND': Hm.STOP_COND,
+                'STATS': copy.deepcopy(Hm.STATS)}
+
+    @staticmethod
+    def _install(img):
+        from src import utils
+        Hm = hmod()
+        utils.random.WORDS = img['WORDS']
+        Hm.STOP_COND = img['STOP_COND']
+        Hm.STATS = img['STATS']
+
+    def enter_worker(self):
+        from src import utils
+        Hm = hmod()
+        w = self.wsched.randrange(len(self.images))
+        self.tasks_per_worker[w] += 1
+        parent = {'WORDS': utils.random.WORDS, 'STOP_COND': Hm.STOP_COND, 'STATS': Hm.STATS}
+        self._install(self.images[w])
+        self.s.sim.event('worker %d' % w)
+        return (w, parent)
+
+    def leave_worker(self, token):
+        from src import utils
+        Hm = hmod()
+        w, parent = token
+        self.images[w] = {'WORDS': utils.random.WORDS, 'STOP_COND': Hm.STOP_COND,
+                          'STATS': Hm.STATS}
+        self._install(parent)
 
     def apply_async(self, fn, args=(), kwds=None, callback=None, error_callback=None):
         ar = AsyncResult(self, fn, args, callback, getattr(fn, '__name__', '?'))
@@ -179,6 +224,8 @@ class Session:
                                                                     run_seed & 0xffffffff))
         self._prog_bytes = None
         self.ncompiler_calls = 0
+        self.words_drawn = {}      # pid -> (identifiers drawn by gen_program, pool size afterwards)
+        self.pool_size = None
 
     # -- scripts ----------------------------------------------------------------------
     def prog_script(self, pid):
@@ -285,7 +332,7 @@ class Session:
         a.replay = None
         a.examine = False
         a.log = False
-        a.print_stacktrace = False
+        a.print_stacktrace = bool(p.get('print_stacktrace'))
         a.log_file = os.path.join(self.root, 'logs')
         a.error_filter_patterns = ''
         if p.get('filter'):
@@ -297,6 +344,14 @@ class Session:
         a.options = {'Generator': {}, 'Translator': {'cast_numbers': False},
                      'TypeErasure': {'timeout': 600}, 'TypeOverwriting': {'timeout': 600}}
         apply_config({'max_depth': a.max_depth})
+        if p.get('word_pool'):
+            # knob: a small identifier pool, so that a short session stands for a long one
+            R = utils.random
+            rr = _pyrandom.Random(h64(self.run_seed, 'wordpool'))
+            R.INITIAL_WORDS = set(rr.sample(sorted(R.INITIAL_WORDS),
+                                            min(p['word_pool'], len(R.INITIAL_WORDS))))
+            R.WORDS = set(R.INITIAL_WORDS)
+        self.pool_size = len(utils.random.INITIAL_WORDS)
         # fresh session state
         Hm.STOP_COND = False
         Hm.STATS['Info'] = {'stop_cond': a.stop_cond,
@@ -312,8 +367,13 @@ class Session:
         sess = self
 
         def gen_program(pid, dirname, packages):
+            from sim.core import OPC
+            start = len(sess.sim.rand.tape)
             r = O['gen_program'](pid, dirname, packages)
             sess.results[pid] = r
+            sess.words_drawn[pid] = (
+                sum(1 for e in sess.sim.rand.tape[start:] if e[0] == OPC['word']),
+                len(utils.random.WORDS))
             sess.sim.event('gen %d failed=%s' % (pid, r.failed))
             return r
 
